@@ -54,6 +54,17 @@ def _ops(rng, size, writable, region=None):
 REGIONS = {'windows': {0: (0, 0x30), 1: (0x90, 0x100), 2: (0x140, 0x300)}}
 
 
+BIG_WINDOW = (8 << 20) + 0x1234
+BYTES_ONLY = ('windows_big',)
+
+
+def e_ctr_big(win):
+    from pyctr.crypto.engine import CryptoEngine
+    e = CryptoEngine(setup_b9_keys=False)
+    e.set_normal_key(0x2C, bytes(range(16)))
+    return e.create_ctr_io(0x2C, win, 3)
+
+
 def run_ops(h, ops):
     out = []
     for op in ops:
@@ -85,6 +96,12 @@ def build(kind, sel):
         base = TT.TBase(io.BytesIO(bytes((i * 7) & 0xFF for i in range(0x400))))
         hs = [SubsectionIO(base, 0x10, 0x100), SubsectionIO(base, 0x80, 0x100), SubsectionIO(base, 0x40, 0x300)]
         return dict(base=base, handles=[hs[i] for i in sel], writable=True, keep=hs)
+    if kind == 'windows_big':
+        # one read call far larger than any buffer size a window might cut its reads into: still one seek + read under the file's lock
+        n = BIG_WINDOW
+        base = TT.TBase(io.BytesIO((bytes(range(256)) + bytes(range(255, -1, -1)) + b'\x5a' * 509) * (n // 1021 + 2)))
+        hs = [SubsectionIO(base, 0x10, n), SubsectionIO(base, 0x1000, 0x100), e_ctr_big(SubsectionIO(base, 0x333, n))]
+        return dict(base=base, handles=[hs[i] for i in sel], writable=False, keep=hs)
     if kind == 'wrappers':
         from pyctr.crypto.engine import CryptoEngine
         e = CryptoEngine(setup_b9_keys=False)
@@ -218,6 +235,7 @@ ORDER_DEPENDENT = ('dpfs_writes', 'ivfc_writes')
 
 SCENARIOS = [
     ('windows', [(0, 1), (0, 2), (0, 1, 2)]),
+    ('windows_big', [(0, 1), (1, 2)]),
     ('wrappers', [(0, 1), (0, 2), (1, 3), (0, 1, 2)]),
     ('romfs', [(0, 1), (1, 2)]),
     ('exefs', [(0, 1), (1, 2)]),
@@ -265,6 +283,10 @@ def gen_ops(rng, kind, sel):
             n = max(1, min(size - a, rng.choice([2 * bs, 2 * bs + 3, 3 * bs])))
             ops.append([('seek', a), ('write', bytes([0x41 + i]) * n), ('seek', a), ('read', n)])
         return [[list(o) if o[0] != 'write' else ['write', o[1].hex()] for o in t] for t in ops]
+    if kind == 'windows_big':
+        for i in sel:
+            ops.append([('seek', 7 * i), ('read', -1)] if i != 1 else [('seek', 5), ('read', 16), ('seek', 40), ('read', 7), ('seek', 0), ('read', 0x100)])
+        return [[list(o) for o in t] for t in ops]
     for i, h in enumerate(sc['handles']):
         # writes of different threads go to disjoint thirds of the smallest handle (so the final image is order-independent)
         w = sc['writable'] and kind in ('windows',) or (kind == 'nand' and i < 3)
@@ -325,9 +347,10 @@ def run_case(ctx, mr, case, instances=None):
     ctx.stat('scenarios')
     ctx.stat('kind_' + kind)
     ctx.stat('actions', sum(len(p) for p in tr['progs']))
-    first = mr.ask(SM.model_line(tr, init, sizes, []))
+    cold = kind.endswith('_cold') or kind in BYTES_ONLY
+    # (the extracted model represents file contents as lists: a scenario over megabytes is decided on the bytes only)
+    first = mr.ask(SM.model_line(tr, init, sizes, [])) if kind not in BYTES_ONLY else 'guarded'
     guarded = first.startswith('guarded')
-    cold = kind.endswith('_cold')
     if cold:
         ctx.stat('bytes_only_scenarios')
     if instances is not None and not cold:
@@ -366,6 +389,8 @@ def run_case(ctx, mr, case, instances=None):
         if image_bytes(sc2) != serial_image:
             ctx.diff('oracle', f'wrong-image:{kind}:{list(sel)}', cinfo, 'the image of the serial run', 'different image', f'{kind}{list(sel)}: writes landed elsewhere than in the serial run')
         # correspondence: base-file positions of the real run vs the model run of the executed schedule
+        if kind in BYTES_ONLY:
+            continue
         out = mr.ask(SM.model_line(tr, init, sizes, [e for e in executed if isinstance(e, int)]))
         model = out.split(' ', 1)[1].split('/')
         real = ['F' + SM.real_obs(events[i]) for i in range(n)]
